@@ -207,6 +207,7 @@ class SequenceGenerator:
                 initialised to a random value.
 
         """
+        self._busy_lock = threading.Lock()
         if include_now:
             self._sequence = int((include_now << 20) | random.randint(self.MIN_SEQUENCE, 0x000fffff)) & self.MAX_SEQUENCE
         else:
@@ -219,11 +220,13 @@ class SequenceGenerator:
 
     def next_sequence(self) -> int:
         """Increase and then return current sequence."""
-        if self._sequence == self.MAX_SEQUENCE:
-            self._sequence = self.MIN_SEQUENCE
-        else:
-            self._sequence += 1
-        return self._sequence
+        # identifiers are drawn by several threads at once
+        with self._busy_lock:
+            if self._sequence == self.MAX_SEQUENCE:
+                self._sequence = self.MIN_SEQUENCE
+            else:
+                self._sequence += 1
+            return self._sequence
 
 
 class SessionGenerator:
